@@ -15,7 +15,7 @@ def plan(tier):
            (PG.shutdown_form(2, "wait", 5, None, "reusable", 1), 1, dict(kinds=("T",))),
            (PG.shutdown_form(1, "exit", 4, 0.05, "reusable", 1), 1, dict(kinds=("T",))),
            (PG.shutdown_form(2, "nowait", 3, 0.05, "reusable", 1), 1, PT),
-           (PG.shutdown_late_error(1), 1, PT),
+           (PG.shutdown_late_error(1), 1, PT), (PG.submit_cancel_shutdown(1, True), 1, PT),
            (PG.shutdown_form(2, "wait", 2, None), 1, dict(kinds=("K",), kill_when="after_shutdown")),
            (PG.shutdown_form(2, "exit", 2, 0.05), 1, dict(kinds=("K",), kill_when="after_shutdown"))]
     # submit racing with shutdown from another thread (either raises or the task runs):
